@@ -18,6 +18,16 @@ Inductive test_of : target -> target -> Prop :=
 | TO_subrepo t l x :
     t_subrepo_target t = Some l -> find_target g l = Some x -> test_of t x.
 
+(* t reaches x through the chain hs of hidden sub-targets of its own rule, of ANY length:
+   t -> h1 -> h2 -> ... -> hn -> x, every hi with the same parent label as t, x with another one
+   (//lib:k_test -> //lib:_k_test#main -> //lib:_k_test#lib -> //lib:k is hs = [_k_test#main; _k_test#lib]) *)
+Fixpoint hidden_chain (t : target) (hs : list target) (x : target) : Prop :=
+  match hs with
+  | [] => exists d, In d (t_declared t) /\ find_target g d = Some x /\ parent (t_label x) <> parent (t_label t)
+  | h :: r => (exists d, In d (t_declared t) /\ find_target g d = Some h)
+              /\ parent (t_label h) = parent (t_label t) /\ hidden_chain h r x
+  end.
+
 (* a named target: gc.keep (pseudo-labels match through BuildLabel.Includes) or its expansion `targets`
    (a label, or - never passed by please.go - a `...` label naming the targets of the packages it includes) *)
 Definition named (t : target) : Prop :=
